@@ -23,7 +23,7 @@ L_SubVals == <<
   N(1, 2), N(2, 3),
   V("i", BintD(2)), V("j", BintD(2)), V("m", BintD(2)), V("k", BintD(3)), V("p", BintD(3)),
   IdxJ, IdxM, IdxIM3, IdxK2,
-  SliceT("s", 0, 3, 2, 3), SliceT("k", 1, 3, 1, 3),
+  SliceT("s", 0, 3, 2, 3), SliceT("k", 1, 3, 1, 3), SliceT("m", 0, 3, 2, 3),
   [c |-> "Bin", op |-> Op0("add"), l |-> V("i", BintD(2)), r |-> N(1, 2)] >>
 L_NewNames == <<"q">>
 =============================================================================
